@@ -248,3 +248,177 @@ def checks(tier):
                       "UploadPackHandler over an in-memory pkt-line stream; the pack sent is unpacked and inspected",
                outside="haves/ack negotiation modes, side-band, shallow, protocol v2, allow-*-sha1-in-want options", tiers=q),
     ]
+
+
+# ---------------------------------------------------------------------------------------------
+# (d) negotiation on a receiver with incomplete history: it never claims to have what it does not hold
+_c05_d = checks
+
+
+def h_graph_walker(eng, n=3):
+    """a receiver holding a symbolic part of a history (commits below a boundary missing, the boundary recorded in
+    .git/shallow or not): every id its graph walker offers as a 'have' names a commit the receiver really holds, under
+    every acknowledgement pattern"""
+    d = scratch("c05w")
+    try:
+        r = Repo.init_bare(d)
+        b = Blob.from_string(b"x\n")
+        t = Tree()
+        t.add(b"f", 0o100644, b.id)
+        r.object_store.add_object(b)
+        r.object_store.add_object(t)
+        cs = []
+        for i in range(n):
+            c = Commit()
+            c.tree = t.id
+            c.parents = [cs[p].id for p in range(i) if bool(eng.bool(f"c{i}_p{p}"))]
+            c.author = c.committer = b"V <v@v>"
+            c.author_time = c.commit_time = 1000 + i
+            c.author_timezone = c.commit_timezone = 0
+            c.message = b"c%d" % i
+            cs.append(c)
+        present = [bool(eng.bool(f"holds_c{i}")) for i in range(n)]
+        eng.assume(any(present))
+        for i, c in enumerate(cs):
+            if present[i]:
+                r.object_store.add_object(c)
+        boundary = [c.id for i, c in enumerate(cs) if present[i] and any(not present[cs.index(p_)] for p_ in
+                                                                          [x for x in cs if x.id in c.parents])]
+        if boundary and bool(eng.bool("boundary_recorded_as_shallow")):
+            r.update_shallow(boundary, [])
+        heads = [c.id for i, c in enumerate(cs) if present[i] and bool(eng.bool(f"head_c{i}"))]
+        eng.assume(bool(heads))
+        w = r.get_graph_walker(heads)
+        offered = []
+        for step in range(2 * n + 2):
+            try:
+                sha = next(w)
+            except StopIteration:
+                break
+            if sha is None:
+                break
+            offered.append(sha)
+            if step < 3 and bool(eng.bool(f"ack{step}")):
+                w.ack(sha)
+        held = {c.id for i, c in enumerate(cs) if present[i]}
+        tag = f"[parents={[[cs.index(x) for x in cs if x.id in c.parents] for c in cs]} holds={present} heads={[i for i, c in enumerate(cs) if c.id in heads]}]"
+        for sha in offered:
+            eng.prove(sha in held, f"{tag} the walker offered a 'have' for commit {[c.id for c in cs].index(sha) if sha in [c.id for c in cs] else sha} that the receiver does not hold")
+        eng.prove(len(offered) == len(set(offered)), f"{tag} no commit offered twice")
+        r.close()
+    finally:
+        shutil.rmtree(d, ignore_errors=True)
+
+
+def checks(tier):
+    q = ("quick", "thorough")
+    return _c05_d(tier) + [
+        KCheck("C05d.graph_walker", h_graph_walker,
+               encoded=["dulwich.object_store.ObjectStoreGraphWalker.next/ack", "dulwich.repo.BaseRepo.get_graph_walker/get_parents"],
+               bounds="every history of 3 commits (all parent sets), every subset of commits held by the receiver, boundary "
+                      "recorded in .git/shallow or not, every non-empty set of held heads, every acknowledgement pattern over "
+                      "the first 3 offers", outside="longer histories; tags as heads", tiers=q),
+    ]
+
+
+# ---------------------------------------------------------------------------------------------
+# (e) depth-limited fetches served by upload-pack to a client that is already shallow
+_c05_e = checks
+
+
+def h_upload_pack_shallow(eng):
+    """server history c0<-c1<-c2 (main), c1<-c3 (side), every commit with its own tree and blob.  The client fetched main
+    at depth d1 before (so it holds the commits within d1 of c2 and is shallow at the boundary); now it wants side with
+    depth d2, announcing its shallow commits and any subset of its commits as haves: afterwards it holds every object of
+    the commits within d2 of side (what it had plus the pack), and the pack holds nothing outside side's closure"""
+    from dulwich.protocol import PktLineParser
+    from dulwich.object_store import MemoryObjectStore as _M
+    d = scratch("c05s")
+    repo = Repo.init_bare(d)
+    try:
+        cs, per = [], []
+        for i, parents in enumerate(([], [0], [1], [1])):
+            b = Blob.from_string(b"blob of c%d\n" % i)
+            t = Tree()
+            t.add(b"f%d" % i, 0o100644, b.id)
+            c = Commit()
+            c.tree = t.id
+            c.parents = [cs[p].id for p in parents]
+            c.author = c.committer = b"V <v@v>"
+            c.author_time = c.commit_time = 1000 + i
+            c.author_timezone = c.commit_timezone = 0
+            c.message = b"c%d" % i
+            for o in (b, t, c):
+                repo.object_store.add_object(o)
+            cs.append(c)
+            per.append({b.id, t.id, c.id})
+        repo.refs[b"refs/heads/main"] = cs[2].id
+        repo.refs[b"refs/heads/side"] = cs[3].id
+        d1 = 1 + eng.choice("client_depth_of_main_minus_1", 3)
+        d2 = 1 + eng.choice("requested_depth_of_side_minus_1", 3)
+        chain_main = [2, 1, 0]
+        chain_side = [3, 1, 0]
+        held_commits = chain_main[:d1]
+        client_objs = set().union(*[per[i] for i in held_commits])
+        client_shallow = [cs[held_commits[-1]].id] if d1 < 3 else []
+        haves = [cs[i].id for k, i in enumerate(held_commits) if bool(eng.bool(f"announce_have_{k}"))]
+        lines = [pkt_line(b"want " + cs[3].id + b" ofs-delta side-band-64k thin-pack shallow\n")]
+        for s_ in client_shallow:
+            lines.append(pkt_line(b"shallow " + s_ + b"\n"))
+        lines.append(pkt_line(b"deepen %d\n" % d2))
+        lines.append(pkt_line(None))
+        for h_ in haves:
+            lines.append(pkt_line(b"have " + h_ + b"\n"))
+        lines.append(pkt_line(b"done\n"))
+        inf = BytesIO(b"".join(lines))
+        out = []
+        proto = Protocol(inf.read, out.append)
+        h = UploadPackHandler(DictBackend({b"/": repo}), [b"/"], proto, stateless_rpc=True)
+        tag = f"[client has main at depth {d1}, shallow {[x[:6] for x in client_shallow]}, haves {[x[:6] for x in haves]}; wants side, deepen {d2}]"
+        try:
+            h.handle()
+        except (GitProtocolError, HangupException) as e:
+            eng.fail(f"{tag} a valid depth-limited request was refused: {e}")
+            return
+        raw = b"".join(out)
+        frames = []
+        try:
+            PktLineParser(frames.append).parse(raw)
+        except GitProtocolError:
+            pass
+        new_shallow = {f[8:48] for f in frames if f and f.startswith(b"shallow ")}
+        data = b"".join(f[1:] for f in frames if f and f[:1] == b"\x01")
+        i = data.find(b"PACK")
+        sent = set()
+        if i >= 0:
+            rx = _M()
+            for o_ in client_objs:
+                rx.add_object(repo.object_store[o_])
+            f = BytesIO(data[i:])
+            rx.add_thin_pack(f.read, None)
+            sent = set(rx) - client_objs
+        needed = set().union(*[per[k] for k in chain_side[:d2]])
+        missing = needed - client_objs - sent
+        eng.prove(not missing, f"{tag} after the fetch the client lacks {sorted(x[:6] for x in missing)} of the commits within the "
+                               f"requested depth (pack had {len(sent)} new objects, server said shallow {[x[:6] for x in new_shallow]})")
+        allowed = set().union(*[per[k] for k in chain_side])
+        eng.prove(sent <= allowed, f"{tag} the pack holds nothing outside the closure of what was asked for")
+        if d2 < 3 and cs[chain_side[d2 - 1]].id not in client_shallow:
+            eng.prove(cs[chain_side[d2 - 1]].id in new_shallow or chain_side[d2 - 1] in held_commits[:-1] or d1 == 3,
+                      f"{tag} the new boundary commit is announced as shallow")
+    finally:
+        repo.close()
+        shutil.rmtree(d, ignore_errors=True)
+
+
+def checks(tier):
+    q = ("quick", "thorough")
+    return _c05_e(tier) + [
+        KCheck("C05e.upload_pack_shallow", h_upload_pack_shallow,
+               encoded=["dulwich.server.UploadPackHandler.handle", "dulwich.server._ProtocolGraphWalker._handle_shallow_request",
+                        "dulwich.repo.BaseRepo.find_missing_objects", "dulwich.object_store.find_shallow/MissingObjectFinder"],
+               bounds="server history c0<-c1<-c2 (main), c1<-c3 (side); the client holds main at depth 1, 2 or completely, announces its "
+                      "shallow commits and any subset of its commits as haves, and asks for side with depth 1, 2 or 3; the real "
+                      "upload-pack handler over an in-memory pkt-line stream", outside="deepen-since / deepen-not; protocol v2; "
+                      "network transports", tiers=q),
+    ]
